@@ -23,6 +23,9 @@ def run(ctx):
     from .. import tagged as _tagged
     from ..gen import Gen as _Gen, Opts as _Opts, module_text as _module_text
     _tagged.run_set_order(ctx, 'C05', ctx.rng, ctx.n(50, 600), impl, ['per', 'uper'], _Gen, _Opts, _module_text)
+    # permitted-alphabet constraints FROM (...) against an independent reading of the permitted set
+    from .. import fromfam as _fromfam
+    _fromfam.run(ctx, 'C05', ctx.rng, ctx.n(30, 400), codecs=['per', 'uper'])
 
 
 def replay(ctx, path):
